@@ -40,6 +40,8 @@ type Violation struct {
 	Expected  any    `json:"expected,omitempty"`
 	Observed  any    `json:"observed,omitempty"`
 	Reproduced int   `json:"reproduced"`
+	// Unit is the work unit that produced the violation; a replay re-runs exactly this unit.
+	Unit *Unit `json:"unit,omitempty"`
 }
 
 // Result of one unit.
@@ -301,6 +303,12 @@ func WorkerMain() {
 		os.Exit(3)
 	}
 	r := c.Run(u)
+	for i := range r.Violations {
+		if r.Violations[i].Unit == nil {
+			uu := u
+			r.Violations[i].Unit = &uu
+		}
+	}
 	b, err := json.Marshal(r)
 	if err != nil {
 		// NaN/Inf or other unencodable values in a witness: stringify the witnesses
